@@ -8,6 +8,8 @@ def seeded():
     rows = ['| seeded change | property | what it needs to manifest | detected by | how |', '|---|---|---|---|---|']
     for f in sorted(glob.glob(os.path.join(HERE, 'seeded', '*', 'meta.json'))):
         m = json.load(open(f))
+        if m.get('kind') == 'harmless':
+            continue
         how = []
         for c, r in sorted(m.get('checks_run_against_it', {}).items()):
             if r['exit'] == 1:
@@ -17,6 +19,26 @@ def seeded():
                 how.append('%s: not detected' % c)
         rows.append('| %s %s | %s | %s | %s | %s |' % (m['seed_id'], m.get('title', '').replace('|', '/')[:90], m.get('property', ''),
                     str(m.get('needs_to_manifest', '')).replace('|', '/').replace('\n', ' ')[:160], ', '.join(m.get('detected_by', [])) or '—', '; '.join(how)))
+    return '\n'.join(rows)
+
+def harmless():
+    rows = ['| change (kept in seeded/<id>/) | property | what it changes | outcome of the check | why |', '|---|---|---|---|---|']
+    for f in sorted(glob.glob(os.path.join(HERE, 'seeded', '*', 'meta.json'))):
+        m = json.load(open(f))
+        if m.get('kind') != 'harmless':
+            continue
+        outs = []
+        why = []
+        for c, r in sorted(m.get('checks_run_against_it', {}).items()):
+            outs.append('%s: %s' % (c, {'quiet': 'exit 0', 'no-failing-input': 'no-failing-input-found', 'concrete': 'concrete violation'}.get(r.get('outcome'), r.get('outcome'))))
+            rp = r.get('replay') or {}
+            for b in (rp.get('broken_obligations') or [])[:2]:
+                why.append(('%s: %s' % (b.get('what'), b.get('detail', '')))[:140].replace('|', '/').replace('\n', ' '))
+            if r.get('outcome') == 'concrete':
+                why.append(('%s: %s' % (rp.get('signature'), rp.get('detail', '')))[:160].replace('|', '/').replace('\n', ' '))
+        note = m.get('verdict_note')
+        rows.append('| %s %s | %s | %s | %s | %s |' % (m['seed_id'], m.get('title', '').replace('|', '/')[:100], m.get('property', ''),
+                    str(m.get('what_changes', '')).replace('|', '/').replace('\n', ' ')[:160], '; '.join(outs), (note or '; '.join(why) or '—').replace('|', '/')))
     return '\n'.join(rows)
 
 def claimed():
@@ -66,7 +88,7 @@ def known():
 def main():
     p = os.path.join(HERE, 'DESIGN.md')
     s = open(p).read()
-    for name, fn in (('SEEDED', seeded), ('CLAIMED', claimed), ('FIXES', fixes), ('KNOWN', known)):
+    for name, fn in (('SEEDED', seeded), ('HARMLESS', harmless), ('CLAIMED', claimed), ('FIXES', fixes), ('KNOWN', known)):
         b = '<!-- BEGIN %s -->' % name; e = '<!-- END %s -->' % name
         if b in s and e in s:
             i = s.index(b) + len(b); j = s.index(e)
